@@ -116,6 +116,7 @@ def cases(draw):
             # combinational blocks without any block on their inputs (constants only / no inputs)
             'consts': draw(st.sampled_from([None, None, 'and', 'func', 'empty', 'chain'])),
             'consts_first': draw(st.booleans()),
+            'bigchain': draw(st.sampled_from([0] * 19 + [130, 320])),
             # a persistent library FSM with a saved state (its output may be a false value) and a
             # different initdef: the saved state wins
             'libfsm': draw(st.sampled_from([None, None, 'timer_off', 'timer_on', 'inputexp_expired',
@@ -378,6 +379,14 @@ def run_order(case, order):
         storage = harness.DeepCopyDict()
 
         def mkconsts():
+            if case.get('bigchain'):
+                # a first evaluation of hundreds of blocks is still one uninterrupted step: wait_init()
+                # must not return before the last of them has its output
+                edzed.Input('z_src', initdef=True)
+                prev = 'z_src'
+                for k in range(case['bigchain']):
+                    edzed.Not(f'z{k}').connect(prev)
+                    prev = f'z{k}'
             kind = case.get('consts')
             if kind == 'and':
                 edzed.And('k0').connect(True, edzed.Const(1))
@@ -632,6 +641,8 @@ def execute(case, all_orders=False):
         res.classes.append('init-time event delivered')
     if started_async:
         res.classes.append('asynchronous routine started')
+    if case.get('bigchain'):
+        res.classes.append('first evaluation of hundreds of blocks')
     if case['calc'] == 'fail':
         res.classes.append('first evaluation fails')
     if recursion_prone:
